@@ -149,14 +149,16 @@ def write_evidence(ctx: Ctx, wall: float, explanation: str, assumptions,
         "explanation": explanation,
         "evaluations": ctx.obligations,
         "distinct_nontrivial": len(ctx.sites),
-        "rule": ("one evaluation = one rule obligation examined at one site of "
-                 "the current tree; distinct_nontrivial = distinct (rule, "
-                 "function, construct) sites that carried at least one "
-                 "obligation (a function that is merely parsed does not count)"),
+        "rule": ("one evaluation = one obligation: the abstractly evaluated behaviour of one function of the "
+                 "current tree in one scenario (abstract input / path / table row) compared with the expected "
+                 "behaviour stated by the rule; distinct_nontrivial = distinct (rule, function, scenario key) "
+                 "triples that carried at least one obligation (a function that is merely parsed does not count). "
+                 "The scenario sets are finite and listed in the rule modules; they are enumerated completely, but "
+                 "they bound the property's input space (see assumptions), hence exhaustive = false"),
         "obligations": ctx.obligations,
         "discharged": ctx.discharged,
         "samples": ctx.samples[:40] or [{"note": "no site examined"}],
-        "exhaustive": True,
+        "exhaustive": False,
         "per_rule": ctx.per_rule,
         "instance_floors": ctx.floors,
         "units_analysed": {
